@@ -172,3 +172,13 @@ def scribble(obj, mark, seen: set | None = None) -> int:
         for x in obj:
             n += scribble(x, mark, seen)
     return n
+
+
+def strict(v):
+    """Everything a result shows, not only what it denotes: representation, flags and context of
+    every number in it (a digest of its repr)."""
+    import hashlib
+    text = repr(v)
+    if ' at 0x' in text:
+        return None        # some object without a value-based repr: nothing to compare
+    return hashlib.sha256(text.encode()).hexdigest()[:16]
